@@ -5,3 +5,9 @@ git -C ${VERIF_REPO:-/repo} diff --quiet || { echo "/repo not clean"; exit 2; }
 for p in $(python3 -c "import json;print(' '.join(c['property_id'] for c in json.load(open('MANIFEST.json'))['checks']))"); do
   ./check $p --tier quick > /tmp/refresh_$p.out 2> /tmp/refresh_$p.err; echo "$p rc=$? $(tail -1 /tmp/refresh_$p.err)"
 done
+python3 - <<'PY'
+import json,glob,sys
+bad=[f for f in glob.glob('evidence/*.json') if (lambda c: c.get('discharged')!=c.get('obligations'))(json.load(open(f)).get('coverage',{}))]
+print("evidence with undischarged obligations:", bad)
+sys.exit(1 if bad else 0)
+PY
